@@ -74,6 +74,9 @@ Section LL2CR.
   Definition ll2cr (a : area T) (fill : T) (pts : list (T * T)) : Z * list (T * T) :=
     ll2cr_static (ll2cr_params a) fill pts.
 
+  (* dask_ewa._call_ll2cr: `if swath_points_in_grid == 0: return <placeholders>` (the chunk is never resampled) *)
+  Definition chunk_dropped (a : area T) (fill : T) (pts : list (T * T)) : bool := fst (ll2cr a fill pts) =? 0.
+
   (* with the projection as an oracle *)
   Definition ll2cr_lonlat (proj : T * T -> T * T) (a : area T) (fill : T) (lonlats : list (T * T)) :=
     ll2cr a fill (map proj lonlats).
@@ -141,6 +144,10 @@ Section ACC.
                    else if leb OP zero A then add OP (div OP A W) rounding
                    else sub OP (div OP A W) rounding in
       if isnan OP chanf then None else Some chanf.
+
+  (* write_grid_pixel(npy_int8*, chanf): clamp, then C truncation *)
+  Definition write_pixel_i8 (chanf : T) : Z :=
+    if ltb OP chanf (ofZ OP (-128)) then -128 else if ltb OP (ofZ OP 127) chanf then 127 else truncZ OP chanf.
 
   (* one-shot fornav at one cell, with the effective threshold [smin] / with the user parameters *)
   Definition fornav_cell_s (mwm : bool) (smin rounding : T) (pixels : list (pixel T)) (c : cell) : option T :=
